@@ -395,8 +395,74 @@ func genMixedMagnitudes(t *rapid.T) Case {
 	return c
 }
 
+// genBezoutNearTouch: a segment a-b with direction m*(p, q), p and q coprime and up to
+// 2^31, and a segment that starts at c = a + k*(p, q) + (d1, d2) with p*d2 - q*d1 = 1
+// (Bezout): c is off the line through a and b by one unit of area, the least a lattice
+// point can be, while the products that decide the side have 62 bits. The other end d
+// lies further out on the same side, so the segments do not meet. Everything is a whole
+// number of units of 2^e; e runs over the band where such products are normal numbers
+// and their rounding errors are not (and over the rest of the range).
+func genBezoutNearTouch(t *rapid.T) Case {
+	kb := rapid.IntRange(4, 30).Draw(t, "bk")
+	tuned := rapid.Bool().Draw(t, "btuned")
+	if tuned {
+		kb = rapid.IntRange(25, 30).Draw(t, "bkbig")
+	}
+	k0 := int64(1) << uint(kb)
+	var pp, qq, d1, d2 int64
+	for {
+		pp, qq = rapid.Int64Range(k0, 2*k0).Draw(t, "bp"), rapid.Int64Range(k0, 2*k0).Draw(t, "bq")
+		r0, r1, s0, s1, t0, t1 := pp, qq, int64(1), int64(0), int64(0), int64(1)
+		for r1 != 0 {
+			q := r0 / r1
+			r0, r1, s0, s1, t0, t1 = r1, r0-q*r1, s1, s0-q*s1, t1, t0-q*t1
+		}
+		if r0 != 1 {
+			continue
+		}
+		d2, d1 = s0, -t0 // pp*d2 - qq*d1 = 1
+		for d1 < 0 {
+			d1, d2 = d1+pp, d2+qq
+		}
+		for d1 >= pp {
+			d1, d2 = d1-pp, d2-qq
+		}
+		if pp*d2-qq*d1 == 1 {
+			break
+		}
+	}
+	m := rapid.Int64Range(2, 4).Draw(t, "bm")
+	k := rapid.Int64Range(1, m-1).Draw(t, "bkk")
+	ax, ay := rapid.Int64Range(-1<<31, 1<<31).Draw(t, "bax"), rapid.Int64Range(-1<<31, 1<<31).Draw(t, "bay")
+	side := int64(1 - 2*rapid.IntRange(0, 1).Draw(t, "bside")) // which side of a->b
+	cx, cy := ax+k*pp+side*d1, ay+k*qq+side*d2
+	// d: from c along the left normal (-q, p) (times side), some way out, and along the segment
+	w := rapid.Int64Range(1, 3).Draw(t, "bw")
+	dx, dy := cx-side*w*qq+rapid.Int64Range(-2, 2).Draw(t, "bj")*pp, cy+side*w*pp
+	e := rapid.IntRange(-575, -495).Draw(t, "be")
+	if rapid.IntRange(0, 2).Draw(t, "bany") == 0 {
+		e = rapid.SampledFrom([]int{-1000, -800, -600, -300, 0, 300, 600, 900}).Draw(t, "be2")
+	}
+	if tuned {
+		// the unit fitted to the size: the products (of about 2*(kb+2) bits) lie in the few
+		// binades just above the smallest normal number
+		e = -(1022+2*(kb+2))/2 + rapid.IntRange(0, 5).Draw(t, "bej")
+	}
+	f := func(v int64) model.F { return model.Of(math.Ldexp(float64(v), e)) }
+	c := Case{Class: "bezout-near-touch", P: [4][2]model.F{{f(ax), f(ay)}, {f(ax + m*pp), f(ay + m*qq)}, {f(cx), f(cy)}, {f(dx), f(dy)}}}
+	if rapid.Bool().Draw(t, "bswap") {
+		c.P[0], c.P[1], c.P[2], c.P[3] = c.P[2], c.P[3], c.P[0], c.P[1]
+	}
+	return c
+}
+
 func genCase(t *rapid.T) Case {
 	var c Case
+	if rapid.IntRange(0, 19).Draw(t, "bezout") == 7 {
+		c = genBezoutNearTouch(t)
+		c.Extra = rapid.SampledFrom([]int{0, 0, 1, 2, 3}).Draw(t, "extra")
+		return c
+	}
 	if rapid.IntRange(0, 19).Draw(t, "mixedmag") == 13 {
 		c = genMixedMagnitudes(t)
 		c.Extra = rapid.SampledFrom([]int{0, 0, 1, 2, 3}).Draw(t, "extra")
